@@ -7,6 +7,7 @@ package main
 // are single Int leaves (opaque references).
 
 import (
+	"regexp"
 	"fmt"
 	"go/types"
 	"strings"
@@ -45,8 +46,19 @@ var leafCache = map[string][]Leaf{}
 var leafMu sync.Mutex
 
 func typeKey(t types.Type) string {
-	return types.TypeString(t, func(p *types.Package) string { return p.Path() })
+	k := types.TypeString(t, func(p *types.Package) string { return p.Path() })
+	// byte and rune are aliases: one heap component per underlying type, whatever the spelling
+	if strings.Contains(k, "byte") {
+		k = reByteAlias.ReplaceAllString(k, "${1}uint8")
+	}
+	if strings.Contains(k, "rune") {
+		k = reRuneAlias.ReplaceAllString(k, "${1}int32")
+	}
+	return k
 }
+
+var reByteAlias = regexp.MustCompile(`(^|[^A-Za-z0-9_.])byte\b`)
+var reRuneAlias = regexp.MustCompile(`(^|[^A-Za-z0-9_.])rune\b`)
 
 // shortKey is used in component names; it must be injective enough and SMT-safe after quoting.
 func isBytesBuffer(t types.Type) bool {
